@@ -107,6 +107,7 @@ Fixpoint tr (fx until : bool) (f : form) (T : list tester) {struct f}
     : tform * list tester :=
   match f with
   | FVar v => (TVar v, T)
+  | FAtom a => (TAtom a, T)   (* Comparator/Arithmetic.flatten reproduce the text *)
   | FConst b => (TConst b, T)
   | FNot x => let (a, T1) := tr fx until x T in (TNot a, T1)
   | FBin o x y =>
